@@ -87,6 +87,16 @@ CHECKS = {
           "Generated search: 20 000 container histories and 120 end-to-end scripts per quick run (2 500 thorough) over four receiver types and three transports; contiguity, flags, no-strict-subset and completeness are decided from the payloads.",
           "Detach events only hit peers other than the one whose message is being read; completeness only for peers that stayed connected; >255 inbound frames from a raw peer are covered by C07.",
           "DESIGN.md §2 C02"),
+  "C10": ("exploration",
+          "model-based property testing (proptest): generated call histories on REQ (scripted responder, timeouts) and REP (1..3 requesters, replies carrying the request id) judged step by step by the reference alternation automaton; forced races through a process-wide schedule-point barrier right after the state check (two tasks on a 4-thread runtime)",
+          "Generated histories (150 per socket type quick, 5000 thorough) over three transports + deterministic forced races; reply routing is decided from the payloads.",
+          "A call failing for a non-state reason leaves the state unchanged (reference model); free-running multi-task histories with a linearisability search are not built - the forced races cover the check-then-act windows deterministically. Known finding: a timed-out REQ.recv resets the FSM.",
+          "DESIGN.md §2 C10"),
+  "C11": ("exploration",
+          "property-based testing (proptest): ROUTER with 1..5 DEALER/REQ peers whose routing ids are absent / 1 byte / 255 bytes / random / colliding, payloads with empty frames in every position and embedded sender/addressee labels; identity-frame, placeholder-stability, only-to-the-announcer, payload round-trip (both directions), unroutable and reconnect-with-same-identity oracles",
+          "Generated search (80 cases quick, 2000 thorough) over transports, runtimes, ROUTER_MANDATORY and AUTO_DELIMITER; every judgement is made from labels inside the payloads.",
+          "REQ peers only with AUTO_DELIMITER on (REQ has no such switch); in manual mode only 'the payload arrives unchanged after the raw envelope' is asserted (the mode is undocumented); ROUTER-ROUTER peers not generated.",
+          "DESIGN.md §2 C11"),
 }
 
 NOT_YET = {
